@@ -624,6 +624,19 @@ func SetValue(dest, v reflect.Value) {
 		}
 	}
 
+	// an interface slot (element of a declared list type with interface elements) holds what
+	// a generic list holds: an object stays the pointer the reference table knows, a map is the map
+	if dest.Kind() == reflect.Interface && v.IsValid() && v.Kind() == reflect.Ptr && !v.IsNil() {
+		switch v.Elem().Kind() {
+		case reflect.Struct:
+			dest.Set(v)
+			return
+		case reflect.Map:
+			dest.Set(v.Elem())
+			return
+		}
+	}
+
 	// if the kind of dest is Ptr, the original value will be zero value
 	// set value on zero value is not allowed
 	// unpack to one-level pointer
